@@ -19,7 +19,7 @@ PROP = "C10"
 
 def run(ctx):
     ctx.rule = ("TLC enumerates the complete state graph of Scheduler.tla per configuration; a path cover takes every transition "
-                "(environment actions Request/Notify/EvalDone in every explored order) on the real DefaultScheduler; a case is one "
+                "(environment actions Request/Notify/EvalDone/UsageDone/UsageFail in every explored order, incl. ROLLBACK of jobs that still hold resources and failed usage probes) on the real DefaultScheduler; a case is one "
                 "behaviour, non-trivial when it has more than two environment actions")
     sched.run_property(ctx, PROP)
 
